@@ -137,6 +137,10 @@ def gate_set(name):
         return g.noise_free_gates
     if name == "scaled2":
         return g.ScaledNoiseGates(noise_scaling=2.0)
+    if name.startswith("weak"):           # barely noisy: the averaged total is 1 - 1e-6 .. 1 - 1e-12 before normalisation, never exactly 1
+        return g.ScaledNoiseGates(noise_scaling=float(name[4:]))
+    if name == "almost":
+        return g.almost_noise_free_gates
     if name == "gauss":
         from quantum_gates._gates.pulse import GaussianPulse
         return g.Gates(GaussianPulse(0.5, 0.25))
